@@ -121,10 +121,13 @@ OrderTags(tree, opts, ss) ==
   IN IF Len(es) # Len(ss) THEN {"STRUCT_COUNT"}
      ELSE (IF \E k \in 1..Len(ss) : ~PosTies(es[k]) /\ ~OrderedElem(es[k], ss[k].fields, opts)
            THEN {"FIELD_ORDER"} ELSE {})
-          \cup (IF \E k \in 1..Len(ss) : /\ \A q \in 1..Len(es) : ~PosTies(es[q])
-                                         /\ ~QualifiedOk(ss[k].name, ps[k])
-                                         /\ \E j \in 1..Len(ps) : QualifiedOk(ss[k].name, ps[j])
-                THEN {"STRUCT_ORDER"} ELSE {})
+          \* (only the first struct that does not fit its own position is tried at the other positions: with many
+          \*  misnamed structs in a large tree the quantifier over all pairs does not finish)
+          \cup (LET bad == {k \in 1..Len(ss) : ~QualifiedOk(ss[k].name, ps[k])}
+                IN IF bad # {} /\ (\A q \in 1..Len(es) : ~PosTies(es[q]))
+                      /\ LET k == CHOOSE x \in bad : \A y \in bad : x <= y
+                         IN \E j \in 1..Len(ps) : QualifiedOk(ss[k].name, ps[j])
+                   THEN {"STRUCT_ORDER"} ELSE {})
 
 \* C10: derive verbatim on every struct / absent when empty; rename exactly when the bound name differs
 OptionTags(tree, opts, ss) ==
